@@ -651,7 +651,16 @@ def run_case(spec, idx, ctx):
 
 
 def summarize(all_cases, counters, extras):
+    sample = next(({"case": c["idx"], "observed": c["obs"]} for c in all_cases if isinstance((c.get("obs") or {}).get("monitor_events"), dict)), None)
+    tot = {}
+    for c in all_cases:
+        ev = (c.get("obs") or {}).get("monitor_events")
+        if isinstance(ev, dict):
+            for k, v in ev.items():
+                tot[k] = tot.get(k, 0) + v
     return {
+        "insitu_sample": sample,
+        "insitu_monitor_events": tot,
         "insitu_events_not_judged_nonfinite": {k.split(":", 1)[1]: v for k, v in counters.items() if k.startswith("insitu_nonfinite_not_judged:")},
         "hook_calls": {k[5:]: v for k, v in counters.items() if k.startswith("hook:")},
     }
